@@ -18,8 +18,9 @@ LevelMatch(l, name) ==
       [] l = "r:c" -> name = "c"
       [] l = "r:a|ab" -> name \in {"a", "ab"}      \* ordered alternation whose first branch is a prefix of the second
       [] l = "r:a.*?" -> name \in {"a", "ab"}      \* lazy quantifier: still a full match
+      [] l = "r:.+" -> name # ""                  \* the empty string is a legal level name; .+ does not match it, .* does
       [] OTHER -> l = name
-IsRegex(l) == l \in {"r:.*", "r:a", "r:a|b", "r:[^a]", "r:c", "r:a|ab", "r:a.*?"}
+IsRegex(l) == l \in {"r:.*", "r:a", "r:a|b", "r:[^a]", "r:c", "r:a|ab", "r:a.*?", "r:.+"}
 \* a key matches a pattern iff it has as many levels and matches level by level
 Matches(k, p) == Len(k) = Len(p) /\ \A i \in 1..Len(k) : LevelMatch(p[i], k[i])
 IsPrefix(a, b) == Len(a) <= Len(b) /\ \A i \in 1..Len(a) : a[i] = b[i]
